@@ -80,7 +80,7 @@ def build_binary(ctx, variant, name):
     """name: 'c18sim' or 'c16sim'.  Returns path or None."""
     bdir = ctx.bdir(variant)
     gen_version_header(ctx, bdir)
-    sub = "c18" if name == "c18sim" else "c16"
+    sub = {"c18sim": "c18", "c16sim": "c16", "rtselftest": "rtselftest"}[name]
     sdir = os.path.join(ctx.verif, "sim", sub)
     rtdir = os.path.join(ctx.verif, "sim", "rt")
     inc = ["-I" + os.path.join(ctx.repo, "include"), "-I" + os.path.join(bdir, "gen"), "-I/usr/include/eigen3",
@@ -953,6 +953,13 @@ def write_c18_evidence(ctx, tier, agg, wall, nviol, known_hits, variants, machin
 def selftest(ctx, which):
     if which == "determinism":
         return selftest_determinism(ctx)
+    if which == "runtime":
+        exe = build_binary(ctx, "O1", "rtselftest")
+        if not exe:
+            return 2
+        r = subprocess.run([exe, "60"], capture_output=True, text=True)
+        log(r.stdout + r.stderr)
+        return r.returncode
     if which == "sensitivity":
         import sensitivity
         only = os.environ.get("VERIF_MUTANTS")
